@@ -143,6 +143,14 @@ def t_wiring(world):
             ob.queries += 1
             if same(e[2][idx], want): ob.unsat += 1
             else: ob.sat += 1; ob.cex.append({'ob': ob.oid, 'label': f'{nm}: not the value passed to validate_instructions', 'role': 'wiring:' + nm, 'model': {}, 'replay': None})
+        # all three validators look at THE loaded instruction list (not a filtered or truncated copy)
+        lname = lambda v: getattr(eng.deref_val(v), 'name', None)
+        loaded = ld[3].payload[0][0] if isinstance(ld[3], EnumV) else ld[3]
+        want_list = lname(loaded)
+        for e, nm in ((fi, 'first'), (la, 'last'), (ex, 'exclusive')):
+            ob.queries += 1
+            if want_list is not None and lname(e[2][0]) in (want_list, want_list + '.slice'): ob.unsat += 1      # `&ixes` is the whole Vec viewed as a slice
+            else: ob.sat += 1; ob.cex.append({'ob': ob.oid, 'label': f'validate_ix_{nm} is not given the transaction\'s full instruction list (got {lname(e[2][0])}, loaded {want_list})', 'role': 'wiring:list-' + nm, 'model': {}, 'replay': None})
         # exclusive allow-list = {start, end} + the five fixed discriminators, nothing else
         lst = eng.deref_val(ex[2][2])
         items = [lst.fields[i] for i in sorted(k for k in lst.fields if isinstance(k, int))] if isinstance(lst, StructV) else []
